@@ -1,15 +1,18 @@
 SPECIFICATION Spec
 CONSTANTS
-  Tasks = {1, 2, 3}
+  Tasks = {1, 2}
   Queries = {1, 2, 3, 4}
-  Deps <- DepsDef
-  Roots <- Roots3
+  Deps <- DepsR2
+  Roots <- RootsR2b
   SubscribeLate = FALSE
   MaxAbandon = 0
   SilentAbandon = FALSE
   RegisterLate = FALSE
-  MarkCallerOnly = FALSE
+  MarkCallerOnly = TRUE
 INVARIANT SingleFlight
 INVARIANT OncePerEpoch
 INVARIANT NoOrphanWaiter
+INVARIANT NoStall
+INVARIANT CutOnlyOnCycle
+INVARIANT CutExact
 CHECK_DEADLOCK FALSE
